@@ -361,6 +361,89 @@ func genDeepHier(r *vh.Rng) *Hier {
 	return h
 }
 
+// genDiamondHier: one type (the core, with a sub-core of its own) reached from the top through TWO different embedded
+// fields at the same depth 2..4 (by value or by pointer): by Go's rule every name of the core is ambiguous in the top
+// type unless a shallower declaration shadows it; plus a "skewed" type that reaches the core at two different depths (the
+// shallower path wins) and, half of the time, a lop-sided top whose right chain is one level longer (no ambiguity).
+// Names from the small shared pools; acyclic: the values are built completely.
+func genDiamondHier(r *vh.Rng) *Hier {
+	h := &Hier{LitDepth: 64, Shape: "diamond"}
+	newStruct := func() int {
+		k := len(h.Types)
+		h.Types = append(h.Types, TypeDef{Name: fmt.Sprintf("T%d", k), Kind: KStruct})
+		h.Types[k].Fields = append(h.Types[k].Fields, Field{Name: h.tagName(k), Kind: FInt})
+		return k
+	}
+	embed := func(k, ref int) {
+		kind := FVal
+		if r.Chance(1, 3) {
+			kind = FPtr
+		}
+		h.Types[k].Fields = append(h.Types[k].Fields, Field{Name: h.Types[ref].Name, Kind: kind, Ref: ref})
+	}
+	decorate := func(k int, fieldProb, methProb int) {
+		td := &h.Types[k]
+		used := map[string]bool{}
+		for _, f := range td.Fields {
+			used[f.Name] = true
+		}
+		for _, nm := range fieldNames {
+			if r.Intn(100) < fieldProb && !used[nm] {
+				used[nm] = true
+				td.Fields = append(td.Fields, Field{Name: nm, Kind: FInt})
+			}
+		}
+		for _, nm := range methNames[:7] {
+			if r.Intn(100) < methProb && !used[nm] {
+				used[nm] = true
+				td.Methods = append(td.Methods, Method{Name: nm, Ptr: r.Chance(2, 5), Late: r.Chance(1, 8)})
+			}
+		}
+	}
+	// the top types come first (the lookups and sites concentrate on the first types)
+	top, skew, lop := newStruct(), newStruct(), newStruct()
+	core, sub := newStruct(), newStruct()
+	decorate(sub, 40, 25)
+	embed(core, sub)
+	decorate(core, 60, 40)
+	depth := 1 + r.Intn(3)
+	chain := func(n int) int {
+		cur := core
+		for l := 0; l < n; l++ {
+			k := newStruct()
+			embed(k, cur)
+			decorate(k, 12, 10)
+			cur = k
+		}
+		return cur
+	}
+	left, right, longer := chain(depth), chain(depth), chain(depth+1)
+	embs := []int{left, right}
+	if r.Chance(1, 3) {
+		extra := newStruct()
+		decorate(extra, 30, 20)
+		embs = append(embs, extra)
+	}
+	for i := len(embs) - 1; i > 0; i-- {
+		j := r.Intn(i + 1)
+		embs[i], embs[j] = embs[j], embs[i]
+	}
+	for _, e := range embs {
+		embed(top, e)
+	}
+	decorate(top, 6, 5)
+	embed(skew, core)
+	embed(skew, left)
+	decorate(skew, 6, 5)
+	embed(lop, left)
+	embed(lop, longer)
+	decorate(lop, 6, 5)
+	td := TypeDef{Name: fmt.Sprintf("T%d", len(h.Types)), Kind: KIface}
+	td.Methods = append(td.Methods, Method{Name: methNames[r.Intn(5)]})
+	h.Types = append(h.Types, td)
+	return h
+}
+
 // ---------- source ----------
 func (h *Hier) typeSrc(k int) string {
 	td := h.Types[k]
